@@ -24,6 +24,9 @@ CHECKS = {
  'C17': dict(
    text='Tags (arbitrary integers or automatic), the per-object address (k,t) and the absolute pulse number are solver variables; on every path (tag order, validity class, addressed row) z3 decides in linear integer arithmetic that sources and loads act on exactly the row of the printed geometry table the user named, that invalid addresses are refused, that all/all,t load each pulse once and that the listings name the pulse; bounded by the listed models.',
    design='DESIGN.md 3 (C17)'),
+ 'C13': dict(
+   text='For all wire lengths, radii and min/max limits satisfying the documented preconditions (segment count concrete: tapers n<=4 quick, <=10 thorough; plain wires, arcs, helices n<=40), z3 decides on every path of the real taper generators that the pieces tile the wire, are positive, respect min/max within the code slack, grow by <=2.1 and mirror; arc/helix ends lie on the documented curve at the documented angles (mixed integer/real for the turn count); rotation matrices are orthogonal with det +1; rotate/translate/scale act as documented.',
+   design='DESIGN.md 3 (C13)'),
  'C14': dict(
    text='One-step cache argument: after a visit at an arbitrary earlier frequency every load impedance (all load kinds, both evaluation orders at a junction of two different wires) equals that of a fresh model, decided by z3 for all frequencies and parameters over uninterpreted Bessel/log/sqrt; frequency/compute histories against a fresh model with an uninterpreted matrix fill; set iteration order is a solver variable for the option/report writers. Three findings repaired.',
    design='DESIGN.md 3 (C14)'),
